@@ -331,7 +331,7 @@ func malformed(w *kit.Out, r *kit.Rand, n int) {
 
 func gen(w *kit.Out, r *kit.Rand, tier string) {
 	boundary(w)
-	nCases, nOps, nMal := 120, 30, 150
+	nCases, nOps, nMal := 80, 25, 120
 	if tier == "thorough" {
 		nCases, nOps, nMal = 320, 45, 1000
 	}
